@@ -26,6 +26,7 @@ PROP = {
     "expected_facts": {"crc64tab_len": 256, "rdb_consts": EXPECTED_RDB_CONSTS},
     "harness": [
         {"name": "C03dec", "pkg": "./pkg/rdb/", "test": "TestVerifC03Dec"},
+        {"name": "C03replay", "pkg": "./syncer/", "test": "TestVerifC03Replay"},
     ],
     "rule": "",
     "trusted": [],
